@@ -420,7 +420,11 @@ func (r *runner) sel(tb int) *tmodel {
 // applyWrite performs a write on tm (through the pool when tm is the active
 // table of a pool) and updates the model.
 func (r *runner) applyWrite(tm *tmodel, o *Op, tag int, viaPool bool) {
-	key := r.c.Keys[o.K]
+	// the caller's buffers: a private copy of the key (and of the value) is handed
+	// to the table and overwritten as soon as the call has returned, the way a
+	// caller that re-uses one request buffer does. The table must have captured
+	// the bytes at call time; otherwise its content changes without a write.
+	key := append([]byte{}, r.c.Keys[o.K]...)
 	r.hist++
 	var d desc
 	if o.Op == "del" {
@@ -432,12 +436,18 @@ func (r *runner) applyWrite(tm *tmodel, o *Op, tag int, viaPool bool) {
 		d = desc{o.K, o.Seq, true, ""}
 	} else {
 		val := valueBytes(tag, o.VL)
+		d = desc{o.K, o.Seq, false, string(val)}
 		if viaPool {
 			r.pool.Put(key, val, o.Seq)
 		} else {
 			tm.real.Put(key, val, o.Seq)
 		}
-		d = desc{o.K, o.Seq, false, string(val)}
+		for i := range val {
+			val[i] ^= 0xA5
+		}
+	}
+	for i := range key {
+		key[i] ^= 0x5A
 	}
 	if tm.imm {
 		tm.v.addIgnored(d)
